@@ -84,7 +84,7 @@ def make_worker(tier):
 def run(args):
     chk = common.Check('C14', 'fault_enumeration', args.tier)
     fams = base.families_for(args.tier, args.families, quick=('S0', 'S1', 'S5'), thorough=('S0', 'S1', 'S2', 'S4', 'S5'))
-    stats, distinct, samples = base.run_sweep(chk, args, make_worker(args.tier), fams=fams)
+    stats, distinct, samples = base.run_sweep(chk, args, make_worker(args.tier), fams=fams, shape_tier='quick')
     cov = dict(evaluations=stats['transitions'] + stats['fault_runs'], distinct_nontrivial=len(distinct),
                states=stats['states'], transitions=stats['transitions'], traces_validated_against_impl=stats['transitions'],
                fault_runs=stats['fault_runs'], faults_fired=stats['faults_fired'],
